@@ -3,4 +3,8 @@
 
 package capacity
 
+import "github.com/shirou/gopsutil/disk"
+
 func verifGate(point, sid string) {}
+
+func verifDiskUsage(path string, info *disk.UsageStat) {}
